@@ -725,6 +725,12 @@ fn write_cases(t: Tier) -> Vec<WCase> {
     v
 }
 
+thread_local! {
+    /// how the pre-existing file of a Memfs write-side case came to be at its path (0 written there, 1 moved there,
+    /// 2 copied there from a moved file)
+    static ROUTE: std::cell::Cell<u8> = const { std::cell::Cell::new(0) };
+}
+
 /// A backend instance holding exactly one file path
 struct Wb<V: VirtualFileSystem> {
     name: &'static str,
@@ -757,12 +763,23 @@ impl<V: VirtualFileSystem> Wb<V> {
             }
             Ok(())
         } else if existing {
-            // a fresh Memfs per case; the initial file is created through the public API
+            // a fresh Memfs per case; the initial file is created through the public API - directly, or under
+            // another name and then moved, or moved and then copied to the path (a stored file must not remember
+            // where it came from)
             match catch_unwind(AssertUnwindSafe(|| -> Result<(), String> {
-                let mut h = self.vfs.write(&self.path).map_err(|e| e.to_string())?;
+                let route = ROUTE.with(|r| r.get());
+                let first = if route == 0 { self.path.clone() } else { self.path.with_file_name("origin") };
+                let mut h = self.vfs.write(&first).map_err(|e| e.to_string())?;
                 h.write_all(EXISTING).map_err(|e| e.to_string())?;
                 h.flush().map_err(|e| e.to_string())?;
                 drop(h);
+                if route == 1 {
+                    self.vfs.move_p(&first, &self.path).map_err(|e| e.to_string())?;
+                } else if route == 2 {
+                    let mid = self.path.with_file_name("moved");
+                    self.vfs.move_p(&first, &mid).map_err(|e| e.to_string())?;
+                    self.vfs.copy(&mid, &self.path).map_err(|e| e.to_string())?;
+                }
                 let seen = self.observe()?;
                 if seen != EXISTING {
                     return Err(format!("initial content reads back as \"{}\"", bytes_repr(&seen)));
@@ -1090,7 +1107,18 @@ fn run_wcase_memfs(c: &WCase, st: &mut WStats) -> Option<(String, String)> {
         let path = vfs.root().mash("f");
         Wb { name: "memfs", vfs, path, disk: false, peek: Some(memfs_stored as fn(&Memfs, &Path) -> Option<Vec<u8>>) }
     };
-    run_wcase(&mk, c, st)
+    // a pre-existing file is tried in all three ways of having got there
+    let routes: &[u8] = if c.existing { &[0, 1, 2] } else { &[0] };
+    for &r in routes {
+        ROUTE.with(|x| x.set(r));
+        let res = run_wcase(&mk, c, st);
+        ROUTE.with(|x| x.set(0));
+        if let Some((sig, detail)) = res {
+            let how = ["", " (file moved to its path)", " (file copied to its path from a moved file)"][r as usize];
+            return Some((format!("{}{}", sig, how), format!("{}{}", detail, how)));
+        }
+    }
+    None
 }
 
 fn run_wcase_stdfs(sb: &Sandbox, c: &WCase, st: &mut WStats) -> Option<(String, String)> {
